@@ -20,6 +20,14 @@ Graph(g) with TaskGraphOK (recorded task graph, picker nodes contracted = depend
    a handle abandoned after an evaluate() that raised followed by further handles of the same construct_dag() block that
    share its nodes; the same through a user cache.  TLC (MC_PipelineLazy with FaultsOn, EBSpec for the eager twin) explores
    the fault behaviours of the model, TracePipelineLazy validates the recorded ones.
+6. Blocks left through an exception (BlockLeft; LBeginObs / EagerBeginObs): every exported description in every order, and every
+   random DAG, additionally in a history whose construct_dag() block is left by an exception - of a call refused inside it (a
+   needed keyword dropped / the output supplied / a surplus keyword), of a user function that evaluate() let through (fault plan),
+   or of the body itself, with the handle evaluated, unevaluated or dropped - after which the program goes on outside any block:
+   eager twin, the same call again on the same or on a freshly built lazy pipeline, a new block, the other outputs.  Every
+   begin/lbegin carries what lazy.task_graph() reports when the call is made, every block exit (`bleft`) what it reports afterwards.
+7. User caches of every in-memory kind (simple / lru / hybrid) in the before-the-block / inside-the-block histories: only the kind
+   the block itself keeps (OwnCacheInBlock) may contribute nodes created before the block to the recorded graph.
 """
 from __future__ import annotations
 
@@ -47,14 +55,14 @@ LEVEL = "model_checking"
 INVS = ("InvNothingBeforeEvaluate InvAtMostOncePerNode InvExactlyOnceNeeded InvCountIsDone InvValueIsEval InvGraphIsOK "
         "InvLazyTypeOK InvLDoneOnlyNeeded InvNoCallAfterEvaluate InvBuiltDefined InvMutantsRejected InvReusedNeedNoCall "
         "InvOldNodesOnlySources InvFailuresAccounted InvNoValueFromFailure InvFailedEvaluateOnlyRaises "
-        "InvRetryIsAFirstEvaluate InvEagerReturnNoFault")
+        "InvRetryIsAFirstEvaluate InvEagerReturnNoFault InvMutantsRejectedNoOld InvForeignCacheNeverOld")
 BCFG = """SPECIFICATION {spec}
 CONSTANTS N = {n} Rich = {rich} Shard = {shard} NShards = {nshards} MaxEv = {maxev} AllKw = {allkw} MaxHandles = {maxh}
-  Modes = {modes} UserCacheOn = {ucache} FaultsOn = {faults} MaxFailEv = {maxfail}
+  Modes = {modes} UserCacheOn = {ucache} FaultsOn = {faults} MaxFailEv = {maxfail} CacheKinds = {ckinds}
 INVARIANT """ + INVS + "\n"
 UCFG = """SPECIFICATION LUSpec
 CONSTANTS N = {n} Rich = {rich} Shard = 0 NShards = 1 MaxEv = 2 AllKw = FALSE MaxHandles = 1 Modes = {{"call", "full"}} UserCacheOn = FALSE
-  FaultsOn = FALSE MaxFailEv = 0
+  FaultsOn = FALSE MaxFailEv = 0 CacheKinds = {{"simple"}}
 INVARIANT InvRefGraphOK InvDepEdgesStatic LEmit
 """
 # invariants re-checked on the states TLC reaches while explaining real behaviour (the action guards decide acceptance)
@@ -65,9 +73,22 @@ TRACE_INVS_LIGHT = ["InvNothingBeforeEvaluate", "InvAtMostOncePerNode", "InvDone
 MODES = ["call", "run", "func", "full"]
 DAGVARS = ["off", "in", "out"]
 # fields the trace specification reads, per event (a field keeps one encoding wherever it occurs)
-FIELDS = {"begin": ("out", "kw", "mode"), "call": ("f", "kwargs"), "callfail": ("f", "kwargs"), "return": ("val",),
+FIELDS = {"begin": ("out", "kw", "mode", "active"), "call": ("f", "kwargs"), "callfail": ("f", "kwargs"), "return": ("val",),
           "returnfull": ("pairs",), "raise": ("cls", "val")}
+STRIP = ("order", "cached", "fault", "abort")     # harness-side annotations of a history (not read by the trace specification)
 FAULT_CLS = "HarnessError"          # what a harness function with a fault plan raises (TracePipelineLazy: FaultCls / FaultMsg)
+CACHE_KINDS = ["simple", "lru", "simple", "hybrid"]     # in-memory user caches (rotation of the before/inside-the-block histories)
+
+
+class BodyError(Exception):
+    """What the body of a `with construct_dag()` block raises when the history asks for an exceptional exit and nothing else raised."""
+
+
+def block_active() -> bool:
+    """Cheap observation: does the library see an active construct_dag() block right now?"""
+    from pipefunc.lazy import task_graph
+
+    return task_graph() is not None
 
 
 def slim(events: list[dict]) -> list[dict]:
@@ -98,8 +119,9 @@ def call_events(log_start: int) -> list[dict]:
 
 
 def eager_call(pipeline, out: str, kw_pairs: list[list], mode: str) -> list[dict]:
-    """pcall.do_call (one eager top-level call -> begin, call*, return | returnfull | raise) with `callfail` events."""
-    events = [pcall.ev(e="begin", out=out, kw=kw_pairs, mode="full" if mode == "full" else "call")]
+    """pcall.do_call (one eager top-level call -> begin, call*, return | returnfull | raise) with `callfail` events; `begin`
+    carries what lazy.task_graph() reports when the call is made (`active`)."""
+    events = [pcall.ev(e="begin", out=out, kw=kw_pairs, mode="full" if mode == "full" else "call", active=block_active())]
     kwargs = {n: from_json(v) for n, v in kw_pairs}
     start = len(build.LOG)
     try:
@@ -185,12 +207,17 @@ def _raise_event(ex: BaseException) -> dict:
     return lev(e="raise", cls=type(ex).__name__, val=to_json(Term("#msg:" + str(ex)[:200])))
 
 
-def block_history(pl, items: list[tuple], dagvar: str, k: int = 0) -> list[dict]:
+def block_history(pl, items: list[tuple], dagvar: str, k: int = 0, leave: str = "normal") -> list[dict]:
     """Lazy calls on the real pipeline, each: build the handle, evaluate it twice; task graph before/after (first handle).
     items: [(out, kw_pairs, mode)] or [(out, kw_pairs, mode, attempts)]: with `attempts` evaluate() is called that many times
     whether or not it raises (fault histories; an evaluate() is reported as evalbegin .. evaluate while none has returned yet
     and as reevaluate afterwards), without it the history ends at the first exception.  dagvar: "off" (no construct_dag; one item) | "in" (everything inside ONE
-    construct_dag block, handle after handle) | "out" (one item; built inside the block, evaluated after leaving it)."""
+    construct_dag block, handle after handle) | "out" (one item; built inside the block, evaluated after leaving it).
+    leave: how the with construct_dag() statement is left: "normal" (an exception of a call / an evaluate() is caught inside the
+    block) | "exc" (through an exception: the first one that a call or an evaluate() inside the block raises is let through and
+    caught outside; if none is raised the body raises BodyError at its end - "out": right after the handle was built).
+    Every block exit is reported (`bleft`: exc, and what task_graph() reports afterwards); a handle that is alive when an exception
+    leaves the block is dropped afterwards (`lend`), except the unevaluated one of "out", which is evaluated after the block as usual."""
     from pipefunc.lazy import construct_dag, evaluate_lazy
 
     n = len(items)
@@ -198,13 +225,16 @@ def block_history(pl, items: list[tuple], dagvar: str, k: int = 0) -> list[dict]
         raise ValueError("several handles need one enclosing construct_dag block")
     evs: list[dict] = []
     buf = io.StringIO()
+    pending: list[BaseException] = []       # the exception the last recorded `raise` event reports (if it is the last event)
 
     def build_one(idx: int):
         out, kw_pairs, mode = items[idx][:3]
         evs.append(lev(e="lbegin", out=out, kw=kw_pairs, mode="full" if mode == "full" else "call", dag=dagvar != "off",
-                       blk=idx, how=f"{mode}/{dagvar}/{k}/{items[idx][3] if len(items[idx]) > 3 else 0}"))
+                       active=block_active(), blk=idx,
+                       how=f"{mode}/{dagvar}/{k}/{items[idx][3] if len(items[idx]) > 3 else 0}/{leave}"))
         kwargs = {a: from_json(v) for a, v in kw_pairs}
         start = len(build.LOG)
+        pending.clear()
         try:
             with contextlib.redirect_stdout(buf):
                 if mode == "call":
@@ -220,6 +250,7 @@ def block_history(pl, items: list[tuple], dagvar: str, k: int = 0) -> list[dict]
         except Exception as ex:  # noqa: BLE001
             evs.extend(slim(call_events(start)))
             evs.append(_raise_event(ex))
+            pending.append(ex)
             return None
         pre = slim(call_events(start))
         evs.extend(pre)
@@ -235,6 +266,7 @@ def block_history(pl, items: list[tuple], dagvar: str, k: int = 0) -> list[dict]
         """One evaluate() call (the which-th on this handle; again: an earlier one returned)."""
         full = items[idx][2] == "full"
         start = len(build.LOG)
+        pending.clear()
         try:
             with contextlib.redirect_stdout(buf):
                 if full or (which + k) % 2:
@@ -244,6 +276,7 @@ def block_history(pl, items: list[tuple], dagvar: str, k: int = 0) -> list[dict]
         except Exception as ex:  # noqa: BLE001
             evs.extend(slim(call_events(start)))
             evs.append(_raise_event(ex))
+            pending.append(ex)
             return False
         calls = slim(call_events(start))
         evs.extend(calls)
@@ -257,7 +290,8 @@ def block_history(pl, items: list[tuple], dagvar: str, k: int = 0) -> list[dict]
             evs.append(lev(e=name, val=to_json(v), n=len(calls)))
         return True
 
-    def evaluates(idx: int, h) -> bool:
+    def evaluates(idx: int, h, through: bool = False) -> bool:
+        """The evaluate() calls of one handle.  through: the first exception is not absorbed (it is about to leave the block)."""
         if len(items[idx]) <= 3:
             evs.append(lev(e="evalbegin"))
             return evaluate(idx, h, 0, False) and evaluate(idx, h, 1, True)
@@ -266,7 +300,7 @@ def block_history(pl, items: list[tuple], dagvar: str, k: int = 0) -> list[dict]
             if not returned:
                 evs.append(lev(e="evalbegin"))
             ok = evaluate(idx, h, which, returned)
-            if not ok and (returned or evs[-1].get("cls") != FAULT_CLS):
+            if not ok and (through or returned or evs[-1].get("cls") != FAULT_CLS):
                 return False                 # not the exception of a fault plan, or raised by a handle that had returned
             returned = returned or ok
         return True
@@ -277,25 +311,56 @@ def block_history(pl, items: list[tuple], dagvar: str, k: int = 0) -> list[dict]
             return evs
         evs.append(lev(e="lend"))
         return evs
-    with construct_dag() as tg:
+
+    exc = leave == "exc"
+    alive: list = []                        # the handle that is alive when the block is left
+    tgs: list = []
+
+    def body(tg) -> bool:
+        """The body of the with statement; False: the history ends here (something was raised or is about to be rejected)."""
         for idx in range(n):
             hb = build_one(idx)
             if hb is None:
-                return evs
+                if exc and pending:
+                    raise pending[0]                     # the refused call's exception leaves the block
+                return False
             if idx == 0:
                 graph_event(tg)
             if dagvar == "out":
-                break
-            if not evaluates(idx, hb[0]):
-                return evs
+                alive.append(hb[0])
+                return True
+            if not evaluates(idx, hb[0], through=exc):
+                if exc and pending:
+                    alive.append(hb[0])
+                    raise pending[0]                     # evaluate() let a user function's exception through, and so does the body
+                return False
             if idx == 0:
                 graph_event(tg)
-            evs.append(lev(e="ldrop" if idx < n - 1 else "lend"))
+            # (before an exceptional exit of the body's own the last handle is dropped with the block still open in every other history)
+            evs.append(lev(e="ldrop" if idx < n - 1 or (exc and k % 2 == 0) else "lend"))
+        return True
+
+    left_by_exc = False
+    cont = False
+    try:
+        with construct_dag() as tg:
+            tgs.append(tg)
+            cont = body(tg)
+            if exc and cont:
+                raise BodyError("raised by the body of the with construct_dag() block")
+    except Exception as ex:  # noqa: BLE001
+        if not exc or not (isinstance(ex, BodyError) or (pending and ex is pending[0])):
+            raise
+        left_by_exc = True
+        cont = isinstance(ex, BodyError)
+    evs.append(lev(e="bleft", exc=left_by_exc, active=block_active()))
     if dagvar == "out":
-        if not evaluates(0, hb[0]):
+        if not cont or not alive or not evaluates(0, alive[0]):
             return evs
-        graph_event(tg)
+        graph_event(tgs[0])
         evs.append(lev(e="lend"))
+    elif left_by_exc and alive:
+        evs.append(lev(e="lend"))            # the handle whose evaluate() raised is dropped after the block
     return evs
 
 
@@ -341,12 +406,12 @@ def histories_for_case(case: dict, rng: random.Random, scheme: str, idx: int = 0
                 k = ci + oi
                 if scheme == "full":
                     m = MODES[k % 4]
-                    evs += slim(pcall.do_call(epl, o, kw, m))                      # eager twin
+                    evs += eager_call(epl, o, kw, m)                      # eager twin
                     evs += lazy_history(lpl, o, kw, m, "off", k)                    # no construct_dag
                     evs += lazy_history(lpl, o, kw, MODES[(k + 1) % 4], "in" if (k // 4) % 2 == 0 else "out", k)
                 else:
                     if k % 3 == 0:
-                        evs += slim(pcall.do_call(epl, o, kw, MODES[(k // 3) % 4]))
+                        evs += eager_call(epl, o, kw, MODES[(k // 3) % 4])
                     evs += lazy_history(lpl, o, kw, MODES[(k + oi // 4) % 4], DAGVARS[k % 3], k)
                 ci += 1
             if cuts[o] and (scheme == "full" or (ci + oi) % 3 == 1):
@@ -377,7 +442,7 @@ def histories_for_case(case: dict, rng: random.Random, scheme: str, idx: int = 0
         # the same description as a pipeline with a user cache: called before and then inside a construct_dag() block
         if scheme == "full" or oi % 3 == 0:
             v = oi + len(names)
-            tc = with_cache(tdesc, ["first", "all", "last"][v % 3], "lru" if v % 5 == 4 else "simple")
+            tc = with_cache(tdesc, ["first", "all", "last"][v % 3], CACHE_KINDS[(idx + oi // 3 + v // 3) % 4])
             traces.append(cached_history(tc, order, [(o, [[x, pcall.kv(x)] for x in root_cut(tdesc, cuts[o])])
                                                      for o in sorted(cuts) if cuts[o]], v))
         # the same description with a fault plan on its user functions.  Plan, variant and cuts rotate with the case index and
@@ -394,6 +459,15 @@ def histories_for_case(case: dict, rng: random.Random, scheme: str, idx: int = 0
                               (root_cut(tdesc, cuts[o]) if variant == "cached" or (v + j) % 2 == 0 else cuts[o][(v + j) % len(cuts[o])])])
                          for j, o in enumerate(seq)]
                 traces.append(fault_history(tdesc, order, plan, variant, items, v))
+        # the same description in a history whose construct_dag() block is left through an exception, followed by calls outside
+        # any block (variant, calling convention and cuts rotate with the case index and the order)
+        if scheme == "full" or oi % 3 == 2:
+            outs_c = [o for o in sorted(cuts) if cuts[o]]
+            if outs_c:
+                v = idx + oi
+                seq = outs_c[v % len(outs_c):] + outs_c[:v % len(outs_c)]
+                items = [(o, [[x, pcall.kv(x)] for x in cuts[o][(v // 2 + j) % len(cuts[o])]]) for j, o in enumerate(seq)]
+                traces.append(abort_history(tdesc, order, ABORT_VARIANTS[(idx // 2 + oi) % len(ABORT_VARIANTS)], items, v))
     return traces
 
 
@@ -469,6 +543,66 @@ def fault_history(tdesc: dict, order: tuple, plan: dict, variant: str, items: li
     return {"desc": t2, "ev": evs, "order": list(order), "cached": variant == "cached", "fault": variant}
 
 
+ABORT_VARIANTS = ["refused", "body", "fault", "unevaluated"]
+
+
+def abort_history(tdesc: dict, order: tuple, variant: str, items: list[tuple], k: int) -> dict:
+    """A construct_dag() block that is left through an exception, and what the program does afterwards outside any block.
+    items: [(out, kw_pairs)], the first one is the main call.
+    refused    : inside the block the main call (evaluated twice), then a call that is refused - a needed keyword dropped | the
+                 requested output supplied | a surplus keyword - whose exception leaves the block
+    body       : inside the block the main call (evaluated twice, dropped); the body then raises an exception of its own
+    fault      : the function producing the requested output raises on its first invocation: evaluate() inside the block raises
+                 and the exception leaves the block; the handle is dropped afterwards
+    unevaluated: the handle is built inside the block, the body raises, the handle is evaluated afterwards
+    afterwards : the eager twin; the main call again, without a block, on the same lazy pipeline or on one freshly built from the
+                 same description (every needed function is invoked, exactly once: nothing of the block is left); the main call
+                 in a new block (its graph is recorded completely); the other items without a block."""
+    n = len(tdesc["funcs"])
+    pd = pcall.tla_desc_to_py(tdesc)
+    o0, kw0 = items[0]
+    t2: dict = {"funcs": [tdesc["funcs"][i] for i in order]}
+    if variant == "fault":
+        i = next(j for j in range(n) if o0 in pd["funcs"][j]["outputs"])
+        pd["funcs"][i]["fail"] = {"when": 0, "cls": FAULT_CLS, "args": ["fault in " + pd["funcs"][i]["name"]]}
+        t2["faults"] = [1 if j == i else 0 for j in order]
+    d2 = {"funcs": [pd["funcs"][i] for i in order]}
+    lpl, epl = make_pair(d2)
+    m = [MODES[(k + j) % 4] for j in range(4)]
+    if variant == "refused":
+        names = sorted({p for f in pd["funcs"] for p in f["params"]} | {o for f in pd["funcs"] for o in f["outputs"]})
+        how = k % 3 if kw0 else 1 + k % 2
+        if how == 0:
+            bad = [p for j, p in enumerate(kw0) if j != (k // 3) % len(kw0)]
+        elif how == 1:
+            bad = kw0 + [[o0, pcall.kv(o0)]]
+        else:
+            extra = [x for x in names if x != o0 and all(x != a for a, _ in kw0)]
+            bad = kw0 + [[extra[(k // 3) % len(extra)], pcall.kv(extra[(k // 3) % len(extra)])]] if extra else kw0 + [[o0, pcall.kv(o0)]]
+        evs = block_history(lpl, [(o0, kw0, m[0]), (o0, bad, m[1])], "in", k, leave="exc")
+    elif variant == "body":
+        evs = block_history(lpl, [(o0, kw0, m[0])], "in", k, leave="exc")
+    elif variant == "fault":
+        evs = block_history(lpl, [(o0, kw0, m[0], 1)], "in", k, leave="exc")
+    else:
+        evs = block_history(lpl, [(o0, kw0, m[0])], "out", k, leave="exc")
+    # afterwards: no block is active; nothing of the block is left
+    evs += eager_call(epl, o0, kw0, m[1])
+    if variant == "fault":
+        evs += eager_call(epl, o0, kw0, m[2])            # (the twin's first call raised: its plan is its own)
+        after = lpl                                       # (a freshly built pipeline would come with a fresh fault plan)
+    else:
+        after = make_pair(d2)[0] if k % 2 else lpl
+    evs += block_history(after, [(o0, kw0, m[2], 2)], "off", k + 1)
+    evs += block_history(lpl, [(o0, kw0, m[3])], "in" if k % 4 < 2 else "out", k + 2)
+    for j, (o, kw) in enumerate(items[1:3]):
+        evs += block_history(after, [(o, kw, m[j % 4])], "off", k + 3 + j)
+    tr = {"desc": t2, "ev": evs, "order": list(order), "abort": variant}
+    if variant == "fault":
+        tr["fault"] = "abort"
+    return tr
+
+
 def root_cut(tdesc: dict, cs: list) -> tuple:
     """A cut made of root names only, if there is one (the cache is not used when an intermediate is supplied)."""
     outs = {o for f in tdesc["funcs"] for o in f["outputs"]}
@@ -494,7 +628,7 @@ def random_history(rng: random.Random, tdesc: dict) -> dict:
             if extra:
                 c.append(rng.choice(extra))
         kw = [[x, pcall.kv(x)] for x in c]
-        evs += slim(pcall.do_call(epl, o, kw, rng.choice(MODES)))
+        evs += eager_call(epl, o, kw, rng.choice(MODES))
         evs += lazy_history(lpl, o, kw, rng.choice(MODES), rng.choice(DAGVARS), k)
     # a few calls inside one construct_dag block: valid combinations of one or two outputs
     items = []
@@ -514,7 +648,7 @@ def random_cached_history(rng: random.Random, tdesc: dict) -> dict:
     roots = sorted({p for f in tdesc["funcs"] for p in f["params"]} - set(outs))
     n = len(tdesc["funcs"])
     sel = set(rng.sample(range(n), rng.randint(1, n)))
-    tc = {"funcs": [{**f, "cache": i in sel} for i, f in enumerate(tdesc["funcs"])], "cache_type": rng.choice(["simple", "simple", "lru"])}
+    tc = {"funcs": [{**f, "cache": i in sel} for i, f in enumerate(tdesc["funcs"])], "cache_type": rng.choice(["simple", "lru", "hybrid"])}
     with contextlib.redirect_stdout(io.StringIO()):
         probe = build.make_pipeline(pcall.tla_desc_to_py(tdesc), tag="P:")
     items = []
@@ -547,6 +681,20 @@ def random_fault_history(rng: random.Random, tdesc: dict) -> dict:
     return fault_history(tdesc, tuple(order), plan, variant, items, rng.randrange(12))
 
 
+def random_abort_history(rng: random.Random, tdesc: dict) -> dict:
+    """A random DAG in a history whose construct_dag() block is left through an exception (random variant, two or three requested
+    outputs under valid argument combinations, the consumers preferred as the main call)."""
+    n = len(tdesc["funcs"])
+    order = list(range(n))
+    rng.shuffle(order)
+    outs = [o for f in tdesc["funcs"] for o in f["outputs"]]
+    with contextlib.redirect_stdout(io.StringIO()):
+        probe = build.make_pipeline(pcall.tla_desc_to_py(tdesc), tag="P:")
+    picked = sorted(rng.sample(outs, min(rng.randint(2, 3), len(outs))), key=outs.index, reverse=True)
+    items = [(o, [[x, pcall.kv(x)] for x in rng.choice(sorted(probe.arg_combinations(o)))]) for o in picked]
+    return abort_history(tdesc, tuple(order), rng.choice(ABORT_VARIANTS), items, rng.randrange(12))
+
+
 # worker-process entry points (fork pool; every task is seeded by its own index: deterministic for a given --seed)
 def _w_case(arg: tuple) -> list[dict]:
     idx, case, seed, scheme = arg
@@ -559,7 +707,7 @@ def _w_random(arg: tuple) -> list[dict]:
     rng = random.Random(seed * 1_000_003 + 500_000 + idx)
     build.LOG.clear()
     td = c02.random_desc(rng, rng.randint(3, 6))
-    return [random_history(rng, td), random_cached_history(rng, td), random_fault_history(rng, td)]
+    return [random_history(rng, td), random_cached_history(rng, td), random_fault_history(rng, td), random_abort_history(rng, td)]
 
 
 # ---- verdicts ------------------------------------------------------------------------------------------
@@ -597,6 +745,8 @@ def classify(tr: dict, reached: int) -> dict:
            "dag": bool(b.get("dag", False)), **c02.features(tr["desc"], b["out"], b["kw"])}
     outs = {o for f in tr["desc"]["funcs"] for o in f["outputs"]}
     sig["user_cache"] = bool(tr["desc"].get("cache_type"))
+    if sig["user_cache"]:
+        sig["cache_type"] = tr["desc"]["cache_type"]
     # fault plan of the pipeline ("none" | "transient" | "persistent" | "mixed"), and whether an evaluate() of THIS handle /
     # an earlier call on the pipeline had raised the fault's exception before the rejected event
     kinds = {x for x in tr["desc"].get("faults", []) if x}
@@ -606,6 +756,15 @@ def classify(tr: dict, reached: int) -> dict:
         sig["after_failed_evaluate"] = any(x["e"] == "raise" and x["cls"] == FAULT_CLS for x in evs[s:reached - 1])
         sig["after_failed_call_on_pipeline"] = any(x["e"] == "raise" and x["cls"] == FAULT_CLS for x in evs[:s])
     sig["shared_block"] = b.get("blk", 0) > 0
+    # construct_dag() blocks left through an exception: in this history before the rejected event / the rejected exit itself,
+    # and what task_graph() reported at the rejected call or exit
+    sig["after_block_left_by_exception"] = any(x["e"] == "bleft" and x["exc"] for x in evs[:reached - 1])
+    if tr.get("abort"):
+        sig["abort_variant"] = tr["abort"]
+    if e["e"] == "bleft":
+        sig["left_by_exception"] = e["exc"]
+    if "active" in e:
+        sig["block_reported_active"] = e["active"]
     if sig["shared_block"]:
         # some call of the block so far (this one included) supplies a value for a function output
         sig["block_supplied_intermediate"] = any(x["e"] == "lbegin" and any(nm in outs for nm, _ in x["kw"])
@@ -728,7 +887,7 @@ def stream_validate(ctx: Ctx, name: str, trace_lists: Iterable[list[dict]], *, b
 
     def job(bi: int, trs: list[dict]):
         bctx = _BatchCtx(ctx)
-        rej = validate_traces(bctx, "TracePipelineLazy", trs, f"{name}{bi}", invariants=invs, strip=("order", "cached", "fault"), chunk=chunk)
+        rej = validate_traces(bctx, "TracePipelineLazy", trs, f"{name}{bi}", invariants=invs, strip=STRIP, chunk=chunk)
         return bctx, [(r, trs[i]) for i, r in sorted(rej.items())]
 
     def submit(trs: list[dict]) -> None:
@@ -804,12 +963,13 @@ def run(ctx: Ctx) -> None:
         both = '{"call", "full"}'
 
         def mc(what: str, wd: str, workers: int, heap: str = "3g", nshards: int = 1, modes: str = both, ucache: str = "FALSE",
-               faults: str = "FALSE", maxfail: int = 0, spec: str = "LBSpec", shards: Iterable[int] | None = None, **consts) -> None:
+               faults: str = "FALSE", maxfail: int = 0, spec: str = "LBSpec", shards: Iterable[int] | None = None,
+               ckinds: str = '{"simple"}', **consts) -> None:
             for sh in (range(nshards) if shards is None else shards):
                 label = what + (f" shard {sh + 1}/{nshards}" if nshards > 1 else "") + " (deadlock checking on)"
                 mc_jobs.append((label, pool.submit(
                     tlc_job, "MC_PipelineLazy", BCFG.format(shard=sh, nshards=nshards, modes=modes, ucache=ucache, faults=faults,
-                                                            maxfail=maxfail, spec=spec, **consts),
+                                                            maxfail=maxfail, spec=spec, ckinds=ckinds, **consts),
                     ctx.workdir(f"{wd}_{sh}"), workers=workers, deadlock=True, allow_violation=False, timeout=6000, heap=heap)))
 
         if quick:
@@ -819,6 +979,11 @@ def run(ctx: Ctx) -> None:
             # (the longest run: split in two by DescHash so that it does not decide the wall time)
             mc("LBSpec N=2, valid cuts, user cache (first / all functions flagged)", "b2c", 3, nshards=2, modes='{"call"}',
                ucache="TRUE", n=2, rich="FALSE", maxev=2, allkw="FALSE", maxh=1)
+            # a user cache of another kind than the one a construct_dag() block keeps (lru): nothing created before the block may
+            # take part in its graph, every single-step corruption of the complete graph is rejected however full the cache is;
+            # quick: one part in four of the description universe, thorough: all
+            mc("LBSpec N=2, valid cuts, user cache of a kind the block replaces (lru)", "b2l", 2, heap="2g", nshards=4, shards=[1],
+               modes='{"call"}', ucache="TRUE", ckinds='{"lru"}', n=2, rich="FALSE", maxev=2, allkw="FALSE", maxh=1)
             # fault plans (FaultChoice: each function raising once / always, all raising once): evaluate() calls that raise
             # followed by further ones; quick: one part in eight of the description universe (DescHash = 5 mod 8: a function of
             # two parameters followed by one of one parameter, 36 descriptions x 6 plans), pipeline() convention; thorough: all
@@ -832,8 +997,10 @@ def run(ctx: Ctx) -> None:
             mc("LBSpec N=2 rich, all keyword sets, 3 evaluates", "b2r", 3, n=2, rich="TRUE", maxev=3, allkw="TRUE", maxh=1)
             mc("LBSpec N=2 rich, valid cuts, 2 handles per construct_dag block", "b2s", 3, n=2, rich="TRUE", maxev=2,
                allkw="FALSE", maxh=2)
-            mc("LBSpec N=2 rich, valid cuts, user cache (first / all functions flagged)", "b2c", 3, ucache="TRUE",
-               n=2, rich="TRUE", maxev=2, allkw="FALSE", maxh=1)
+            mc("LBSpec N=2 rich, valid cuts, user cache (first / all functions flagged; simple and lru)", "b2c", 3, ucache="TRUE",
+               ckinds='{"simple", "lru"}', n=2, rich="TRUE", maxev=2, allkw="FALSE", maxh=1)
+            mc("LBSpec N=2, all keyword sets (refused calls), 2 handles per construct_dag block, pipeline() convention", "b2x", 3,
+               modes='{"call"}', n=2, rich="FALSE", maxev=2, allkw="TRUE", maxh=2)
             mc("LBSpec N=3, valid cuts, pipeline()/run()/func() convention", "b3", 2, heap="2g", nshards=3, modes='{"call"}',
                n=3, rich="FALSE", maxev=2, allkw="FALSE", maxh=1)
             mc("LBSpec N=2, valid cuts, fault plans, up to 2 evaluate() calls that raise per handle", "b2f", 2, heap="2g",
@@ -914,8 +1081,29 @@ def selftest(ctx: Ctx, traces: list[dict]) -> None:
                 return k
         return -1
 
+    def left_by_exc(evs) -> bool:
+        """a block left through an exception, followed by an eager and a lazy call outside any block"""
+        ks = [k for k, x in enumerate(evs) if x["e"] == "bleft" and x["exc"]]
+        return bool(ks) and any(x["e"] == "begin" for x in evs[ks[0]:]) and any(x["e"] == "lbegin" and not x["dag"] for x in evs[ks[0]:])
+
+    def foreign_cache_block(tr) -> int:
+        """Index of a graph event with edges recorded for a pipeline whose user cache is of another kind than the block's, after
+        an earlier call with the same inputs (-1: none)"""
+        if tr["desc"].get("cache_type") not in ("lru", "hybrid"):
+            return -1
+        evs = tr["ev"]
+        for k, x in enumerate(evs):
+            if x["e"] == "graph" and len([n for n in x["nodes"] if n["kind"] == "func"]) > 1 and x["edges"]:
+                b = max(j for j in range(k) if evs[j]["e"] == "lbegin")
+                if any(y["e"] == "lbegin" and y["out"] == evs[b]["out"] and y["kw"] == evs[b]["kw"] for y in evs[:b]):
+                    return k
+        return -1
+
     try:
-        good = [pick(has_eval_calls), pick(has_edges), pick(lambda evs: retry_at(evs) >= 0)]
+        good = [pick(has_eval_calls), pick(has_edges), pick(lambda evs: retry_at(evs) >= 0), pick(left_by_exc),
+                copy.deepcopy(next((t for t in traces if foreign_cache_block(t) >= 0), None))]
+        if good[4] is None:
+            raise MachineryError("self-test: no history with a user cache of a kind the block replaces")
     except MachineryError:
         if not ctx.violations:
             raise
@@ -987,8 +1175,30 @@ def selftest(ctx: Ctx, traces: list[dict]) -> None:
     t = copy.deepcopy(good[2])
     del t["ev"][kf + 3]
     add("evaluate() after one that raised returns without invoking the function that raised", t, kf + 3)
-    rej = validate_traces(ctx, "TracePipelineLazy", batch, "selftest", invariants=[], strip=("order", "cached", "fault"), count=False)
-    ctx.selftest("trace-corruption (11 single corruptions + 3 untouched histories)", rej == expect,
+    # 12.-14. a block left through an exception: the block reported as still active at its exit / at the next eager call / at the
+    # next lazy call outside any block
+    kb = first(good[3]["ev"], lambda x: x["e"] == "bleft" and x["exc"])
+    t = copy.deepcopy(good[3])
+    t["ev"][kb]["active"] = True
+    add("block reported active after it was left through an exception", t, kb)
+    t = copy.deepcopy(good[3])
+    k = first(t["ev"], lambda x: x["e"] == "begin", kb)
+    t["ev"][k]["active"] = True
+    add("eager call after the block reported to see an active block", t, k)
+    t = copy.deepcopy(good[3])
+    k = first(t["ev"], lambda x: x["e"] == "lbegin" and not x["dag"], kb)
+    t["ev"][k]["active"] = True
+    add("lazy call after the block reported to see an active block", t, k)
+    # 15. a pipeline with a user cache of another kind than the block's: a task created before the block reported in the graph
+    # as a bare source (its incoming edges and the nodes behind it missing), the shape a "simple" user cache may produce
+    t = copy.deepcopy(good[4])
+    k = foreign_cache_block(t)
+    g = t["ev"][k]
+    tgt = next(n["id"] for n in g["nodes"] if n["kind"] == "func" and any(b == n["id"] for _, b in g["edges"]))
+    g["edges"] = [e2 for e2 in g["edges"] if e2[1] != tgt]
+    add("graph of a block on a foreign-cache pipeline lacks the edges into a task", t, k)
+    rej = validate_traces(ctx, "TracePipelineLazy", batch, "selftest", invariants=[], strip=STRIP, count=False)
+    ctx.selftest("trace-corruption (15 single corruptions + 5 untouched histories)", rej == expect,
                  f"rejected={rej} expected={expect} ({names})")
 
 
@@ -1006,13 +1216,15 @@ def replay(rep: dict) -> int:
         evs = eager_call(epl, b["out"], b["kw"], "full" if b["mode"] == "full" else "call")
     else:
         begins = [x for x in w["events"] if x["e"] == "lbegin"]
-        dagvar, k = begins[0]["how"].split("/")[1:3]
+        how0 = begins[0]["how"].split("/")
+        dagvar, k = how0[1:3]
+        leave = how0[4] if len(how0) > 4 else "normal"
 
         def item(x: dict) -> tuple:
             how = x["how"].split("/")
             att = int(how[3]) if len(how) > 3 else 0
             return (x["out"], x["kw"], how[0], att) if att else (x["out"], x["kw"], how[0])
-        evs = block_history(lpl, [item(x) for x in begins], dagvar, int(k))
+        evs = block_history(lpl, [item(x) for x in begins], dagvar, int(k), leave=leave)
     print(json.dumps({"desc": tdesc, "sig": rep.get("sig")}, indent=1)[:3000])
     for e in evs:
         print("  ", json.dumps(e)[:400])
